@@ -241,6 +241,28 @@ def _todense_fresh(fn):
     return True, f"{name} = {v}; return {name}"
 
 
+def _grouped_reduce_fresh(tree):
+    """_grouped_reduce returns (result, ...) where result is bound once, by `method.reduceat(x, inv_idx, **kwargs)`
+    (a fresh array), and there is no other return: the in-place fill correction of SparseArray.reduce
+    (`data[missing_counts] = ...`) therefore writes into a private buffer, never into the operand's data."""
+    for n in tree.body:
+        if isinstance(n, ast.FunctionDef) and n.name == "_grouped_reduce":
+            rets = [r for r in ast.walk(n) if isinstance(r, ast.Return)]
+            if len(rets) != 1 or not isinstance(rets[0].value, ast.Tuple) or not rets[0].value.elts \
+                    or not isinstance(rets[0].value.elts[0], ast.Name):
+                return False, f"{len(rets)} return statement(s): " + "; ".join(ast.unparse(r) for r in rets)
+            name = rets[0].value.elts[0].id
+            binds = [a for a in ast.walk(n) if isinstance(a, ast.Assign)
+                     and any(isinstance(x, ast.Name) and x.id == name for t in a.targets for x in ast.walk(t))]
+            if len(binds) != 1:
+                return False, f"{name} bound {len(binds)} times"
+            v = ast.unparse(binds[0].value)
+            if v != "method.reduceat(x, inv_idx, **kwargs)":
+                return False, f"{name} = {v}"
+            return True, f"{name} = {v}; {ast.unparse(rets[0])}"
+    return False, "_grouped_reduce not found"
+
+
 def _goes_through_todense(tree, cls, fn):
     """every return of cls.fn returns an expression that calls .todense() (maybe_densify, __array__) or raises"""
     for n in tree.body:
@@ -278,6 +300,7 @@ def extract(repo):
     csc = _attr_memo(_find_class_func(tree, "COO", "tocsc"), "_csc", "_csr", "tocsc", "tocsr")
     memo = _memo(ctree)
     td_ok, td_text = _todense_fresh(_find_class_func(tree, "COO", "todense"))
+    gr_ok, gr_text = _grouped_reduce_fresh(tree)
     stree, _ssrc, _sp = _parse(repo, "sparse/numba_backend/_sparse_array.py")
     via = {"__array__": _goes_through_todense(stree, "SparseArray", "__array__"),
            "maybe_densify": _goes_through_todense(tree, "COO", "maybe_densify")}
@@ -287,7 +310,7 @@ def extract(repo):
     if csr["via_partner"] is not False:
         raise ShapeError("COO.tocsr: last stage is not self._tocsr()")
     return {"transpose": tr, "reshape": rs, "enable_caching": ec, "tocsr": csr, "tocsc": csc, "memo": memo,
-            "todense_fresh": td_ok, "todense_text": td_text, "dense_via_todense": via,
+            "todense_fresh": td_ok, "todense_text": td_text, "grouped_reduce_fresh": gr_ok, "grouped_reduce_text": gr_text, "dense_via_todense": via,
             "cache_writers": writers.get("_cache", []), "core_path": path, "common_path": cpath,
             "hash": hashlib.sha256((src + csrc).encode()).hexdigest()[:16]}
 
@@ -404,6 +427,9 @@ Definition memo_check_then_set : bool := true.
 (* COO.todense: `{e['todense_text'].replace('(*', '( *')}` — the array handed to the caller is a fresh allocation
    and there is no other return (so an in-place write by the caller cannot reach the operand's storage) *)
 Definition todense_result_fresh : bool := {_b(e['todense_fresh'])}.
+(* _grouped_reduce: `{e['grouped_reduce_text'].replace('(*', '( *').replace('**', '* *')}` — the buffer that
+   SparseArray.reduce corrects in place (`data[missing_counts] = ...`) is a fresh array, never the operand's data *)
+Definition grouped_reduce_result_fresh : bool := {_b(e['grouped_reduce_fresh'])}.
 (* SparseArray.maybe_densify / __array__ return what self.todense() returns *)
 Definition densify_paths_via_todense : bool := {_b(all(v is True for v in e['dense_via_todense'].values()))}.
 (* ... and nothing in the wrapper removes an entry (no clear / del / pop / popitem on the dict) *)
@@ -414,6 +440,7 @@ Definition memo_no_deletion : bool := true.
                            "maxlen": e["enable_caching"]["maxlen"],
                            "tocsc_final_via_tocsr": e["tocsc"]["via_partner"],
                            "todense_fresh": e["todense_fresh"], "todense": e["todense_text"],
+                           "grouped_reduce_fresh": e["grouped_reduce_fresh"], "grouped_reduce": e["grouped_reduce_text"],
                            "dense_via_todense": e["dense_via_todense"],
                            "cache_writers": e["cache_writers"]}}
     return {"S_threads.v": text}, rep
